@@ -350,3 +350,68 @@ def ascending_index_deletion(ctx, f):
             if tgt is not None and base(tgt) in seqs:
                 out.append((st, U(x)[:60]))
     return out
+
+
+# ------------------------------------------------------------------ running maximum / minimum that forgets its history
+def broken_accumulators(ctx, f):
+    """[(assign node, text)] inside a loop: `v = max(a, b)` / `min(a, b)` where v is initialised before the loop and read
+    after it, but v itself is not among the arguments - the value after the loop depends on the last iteration only."""
+    out = []
+    for lp in walk_shallow(f.node):
+        if not isinstance(lp, (ast.For, ast.While)):
+            continue
+        body = ast.Module(body=lp.body, type_ignores=[])
+        for st in walk_shallow(body):
+            if not (isinstance(st, ast.Assign) and len(st.targets) == 1 and isinstance(st.targets[0], ast.Name)
+                    and isinstance(st.value, ast.Call) and fn_name(st.value) in ("max", "min", "maximum", "minimum") and len(st.value.args) == 2):
+                continue
+            v = st.targets[0].id
+            if any(isinstance(y, ast.Name) and y.id == v for a in st.value.args for y in ast.walk(a)):
+                continue
+            init_before = any(isinstance(x, ast.Assign) and any(isinstance(t, ast.Name) and t.id == v for t in x.targets)
+                              and x.lineno < lp.lineno for x in walk_shallow(f.node))
+            used_after = any(isinstance(x, ast.Name) and x.id == v and isinstance(x.ctx, ast.Load) and x.lineno > getattr(lp, "end_lineno", lp.lineno)
+                             for x in walk_shallow(f.node))
+            if init_before and used_after:
+                out.append((st, U(st)[:70]))
+    return out
+
+
+# ------------------------------------------------------------------ nullness of a local at a sink
+def maybe_none_reaches(ctx, f, var, sink_ids):
+    """definitions of `var` that may be None (`d.get(k[, default])` - a key that is present with value None yields None
+    whatever the default -, a bare None, a parameter whose default is None) and reach one of the sink nodes without a
+    redefinition and without passing a branch edge that establishes `var is not None`.  Returns [(def node, path)]."""
+    from ..core.facts import atoms_of
+    cfg = cfg_of(f)
+
+    def maybe_none(e):
+        if isinstance(e, ast.Constant) and e.value is None:
+            return True
+        if isinstance(e, ast.Call) and isinstance(e.func, ast.Attribute) and e.func.attr in ("get", "pop") and 1 <= len(e.args) <= 2:
+            return True
+        return False
+    defs_all = {n.id for n in cfg.nodes if n.kind == "stmt" and isinstance(n.ast, (ast.Assign, ast.AnnAssign, ast.AugAssign))
+                and any(isinstance(t, ast.Name) and t.id == var for tt in (n.ast.targets if isinstance(n.ast, ast.Assign) else [n.ast.target])
+                        for t in ast.walk(tt))}
+    out = []
+
+    def edge_ok(label):
+        if isinstance(label, tuple) and label[0] == "cond":
+            return ("is", var, "None", False) not in atoms_of(label[1], label[2])
+        return label != "exc"
+    starts = []
+    for n in cfg.nodes:
+        if n.id in defs_all and isinstance(n.ast, ast.Assign) and len(n.ast.targets) == 1 and isinstance(n.ast.targets[0], ast.Name) and maybe_none(n.ast.value):
+            starts.append(n.id)
+    p_ = f.param_node(var) if hasattr(f, "param_node") else None
+    if p_ is not None and isinstance(f.param_default(var), ast.Constant) and f.param_default(var).value is None:
+        starts.append(cfg.entry)
+    for d in starts:
+        nxt = [s_ for s_, l in cfg.succ[d] if edge_ok(l)]
+        p = cfg.path(nxt, set(sink_ids), deleted=defs_all - set(sink_ids), edge_ok=edge_ok) if nxt else None
+        if any(x in sink_ids for x in nxt):
+            p = p or [d]
+        if p is not None:
+            out.append((cfg.nodes[d].ast if d != cfg.entry else None, p))
+    return out
